@@ -163,6 +163,9 @@ class World:
         t = ast[0]
         if t == "lit":
             return ast[1]
+        if t == "nplit":
+            import numpy as np
+            return np.float64(ast[1])
         if t == "ref":
             return self.ref(ast[1])
         if t == "bin":
